@@ -277,6 +277,14 @@ def locSetOf (e : Err) : List Bytes → Except Err LocSet
 
 def drmNames : List Bytes := [ascii "clearkey", ascii "marlin", ascii "playready"]
 
+/-- one comma separated item of a DRM selection (drm_options.py:86-95) -/
+def drmItem (item : Bytes) : Except Err (Bytes × LocSet) :=
+  if item.contains 45 then
+    match splitOn 45 item with
+    | [] => .ok ([], LocSet.all)
+    | d :: locs => (locSetOf .valueError locs).map (d, ·)   -- DrmLocation(loc) → ValueError
+  else .ok (item, LocSet.all)
+
 /-- drm_options.py:73-96 -/
 def drmFromString (s : Bytes) : Except Err (List (Bytes × LocSet)) :=
   let v := lower s
@@ -286,13 +294,7 @@ def drmFromString (s : Bytes) : Except Err (List (Bytes × LocSet)) :=
       -- DrmLocation.from_string(loc): cls[name.upper()] → KeyError
       (locSetOf .keyError ((splitOn 45 v).drop 1)).map (fun l => drmNames.map (·, l))
     else .ok (drmNames.map (·, LocSet.all))
-  else
-    (splitOn 44 v).mapM fun item =>
-      if item.contains 45 then
-        match splitOn 45 item with
-        | [] => .ok ([], LocSet.all)
-        | d :: locs => (locSetOf .valueError locs).map (d, ·)   -- DrmLocation(loc) → ValueError
-      else .ok (item, LocSet.all)
+  else (splitOn 44 v).mapM drmItem
 
 def LocSet.names (l : LocSet) : List Bytes :=
   (if l.cenc then [ascii "cenc"] else []) ++ (if l.moov then [ascii "moov"] else []) ++
@@ -439,6 +441,12 @@ abbrev Opts (DT : Type) := Nat → Option (Val DT)
 /-- global default of a row (repository.py:161-188) -/
 def defaultVal (r : OptionRow) : Except Err (Val DT) := fromString C r.kind (ascii r.dflt)
 
+/-- `use is not None and (opt.usage & use) == 0` -/
+def useMiss (use : Option Nat) (usage : Nat) : Bool :=
+  match use with
+  | some u => usage &&& u == 0
+  | none => false
+
 /-- one iteration of `_generate_parameters_dict` / `_convert_sub_options`
 (container.py:117-127, :169-183) -/
 def emit (use : Option Nat) (exclude : List String) (removeDefaults : Bool)
@@ -448,7 +456,7 @@ def emit (use : Option Nat) (exclude : List String) (removeDefaults : Bool)
   | some v =>
     if exclude.contains r.fieldName then none
     else if removeDefaults && dflt i == some v then none
-    else if (match use with | some u => r.usage &&& u == 0 | none => false) then none
+    else if useMiss use r.usage then none
     else some (r.cgi, toText C r.kind v)
 
 def genFrom (use : Option Nat) (exclude : List String) (removeDefaults : Bool)
